@@ -490,6 +490,7 @@ func runPairDefer(p *core.Prog) *core.Result {
 			}
 		})
 	}
+	callStackPushDeferred(p, res)
 	return res
 }
 
